@@ -253,6 +253,36 @@ theorem C06_firstOf_cases (vals : List Val) (d v : Val) :
         | cons y ys => rfl
     | _ => rfl
 
+/-- **C06 (fan-out, any path, token level).**  If the tokens `toksP` spell the position of a list of dict
+records anywhere in the tree (plain keys, index steps in any spelling — `Spells`), then `_find` on
+`toksP ++ ["[*]", f]` and on `toksP ++ [f]` finds exactly `selectF f rs` (a miss when empty), for both
+values of `return_lists`; the tree is unchanged. -/
+theorem C06_star_spelled (t : Val) (rl : Bool) (toksP : List Str) (p : Pos) (lc : Cls) (rs : List Val) (f : Str)
+    (hs : Spells toksP t p (.list lc rs)) (hne : toksP ≠ []) (hrs : ∀ r ∈ rs, isDict r = true) (hf : PlainKey f)
+    (fuel : Nat) (hfuel : fuel ≥ 2 * toksP.length + rs.length + 5) :
+    ∀ tail ∈ [[bracket ['*'], f], [f]],
+      ∃ r, findD fuel t [] false true (toksP ++ tail) (.at []) rl slash = .ok (t, r) ∧
+        r.isFound = !(selectF f rs).isEmpty ∧ (r.isFound = true → r.value = collect rl (selectF f rs)) := by
+  intro tail htail
+  have ht : tail = [bracket ['*'], f] ∨ tail = [f] := by simpa using htail
+  have := star_spelled t rl f hs hne hrs hf fuel hfuel tail ht
+  simpa only [selectF_eq] using this
+
+/-- **C06 (shorthand `P/f`, any path).**  For the record list at any position `p` of the tree (canonical
+path `P`, as `xpath()` prints it), `P/f` returns `selectF f rs` through `get`, item access and `first`. -/
+theorem C06_implicit_star_path_partial (cls : Cls) (kvs : List (Str × Val)) (p : Pos) (f : Str) (lc : Cls)
+    (rs : List Val) (d : Val) (hp : PlainPos p) (hne : p ≠ []) (hf : PlainKey f)
+    (hget : getAt (.dict cls kvs) p = some (.list lc rs)) (hrs : ∀ r ∈ rs, isDict r = true)
+    (fuel : Nat) (hfuel : fuel ≥ 2 * p.length + rs.length + 5) :
+    let xp := slash ++ renderPos p ++ slash ++ f
+    XPath.get fuel (.dict cls kvs) xp d = (.dict cls kvs, .ok (selected (selectF f rs) d)) ∧
+    getItem fuel (.dict cls kvs) xp = (.dict cls kvs, selectedItem (selectF f rs)) ∧
+    first fuel (.dict cls kvs) xp d = (.dict cls kvs, .ok (firstOf (selectF f rs) d)) := by
+  intro xp
+  have := star_implicit_path cls kvs p f lc rs d hp hne hf hget hrs fuel hfuel
+  simp only [selectF_eq] at this
+  exact this
+
 /-- the general form of the three predicate theorems: any operator spelling, with `first` -/
 theorem C06_pred_partial (cls : Cls) (kvs : List (Str × Val)) (name k f opx op vq v : Str) (lc : Cls) (rs : List Val)
     (d : Val) (hname : PlainKey name) (hk : FieldKey k) (hf : PlainKey f) (hop : OpSpell opx op) (hlit : LitSpell vq v)
@@ -362,6 +392,12 @@ example : (XPath.get 13 recs ['r', '[', 'k', '=', '\'', '1', '\'', ']', '/', 'f'
     = (recs, .ok (.list .n0 [.str ['x'], .str ['y']])) :=
   (C06_eq_partial .n0 _ ['r'] ['k'] ['f'] ['='] _ ['1'] .plain recsList .none plainKey_r fieldKey_k plainKey_f .eq1
     (.sq ['1']) plainLit_1 rfl (by decide) (by decide) 13 (by decide)).1
+
+/-- a record list two levels down (`/a[1]`), reached through `C06_implicit_star_path_partial` -/
+def deep : Val := .dict .n0 [(['a'], .list .plain [.str ['p'], .list .plain recsList])]
+example : (XPath.get 20 deep ['/', '/', 'a', '[', '1', ']', '/', 'f'] .none) = (deep, .ok (.list .n0 [.str ['x'], .str ['y']])) :=
+  (C06_implicit_star_path_partial .n0 _ [.key ['a'], .idx 1] ['f'] .plain recsList .none
+    ⟨⟨by decide, by decide, by decide⟩, trivial⟩ (by simp) plainKey_f rfl (by decide) 20 (by decide)).1
 
 /-! the selecting forms on a concrete record list, evaluated by the model (all five forms) -/
 example : (XPath.get 60 recs ['r', '[', '*', ']', '/', 'f'] .none).2 = .ok (.list .n0 [.str ['x'], .str ['y']]) := by decide
